@@ -9,7 +9,7 @@
    get_node is the repaired lookup (commit 52826ef): `resolve` applies the redirects of the whole parent
    chain, oldest database first. *)
 From Coq Require Import List Arith Bool NArith.
-From PL.C29 Require Import ModelClauseDB ProofsBase ProofsInv ProofsStmt ProofsAD ProofsHist ProofsRedir.
+From PL.C29 Require Import ModelClauseDB ProofsBase ProofsInv ProofsStmt ProofsAD ProofsHist ProofsRedir ProofsRaw.
 Import ListNotations.
 
 (* DESIGN: abs (fold add cs (extend (prepare P))) = abs (prepare (P ++ cs)), per user predicate,
@@ -85,6 +85,18 @@ Theorem C29_redirect_sound : forall gm ops q d i f a dn,
 Proof. exact redirect_sound. Qed.
 Print Assumptions C29_redirect_sound.
 
+(* ... stated for the call nodes as they are physically stored (`raw`: no redirect applied) in any
+   layer of d: such a node is read unchanged through d (redirects only ever move placeholders and define
+   nodes), and it reaches the extended definition *)
+Theorem C29_redirect_sound_raw : forall gm ops q d i f a dn,
+  run gm ops root0 = q ++ d ->
+  raw d i = NCall (FU f) a dn ->
+  get_node d i = NCall (FU f) a dn /\
+  exists h, get_head d (FU f, length a) = Some h /\ resolve d dn = h /\ get_node d dn = get_node d h /\
+            forall fuel, map (render_clause fuel d) (define_children (get_node d dn)) = abs fuel d (FU f, length a).
+Proof. exact redirect_sound_raw. Qed.
+Print Assumptions C29_redirect_sound_raw.
+
 (* the boolean the tie evaluates on every node of every sampled database is a theorem *)
 Theorem C29_call_resolves : forall gm ops i, call_resolves (run gm ops root0) i = true.
 Proof. exact call_resolves_reachable. Qed.
@@ -118,6 +130,14 @@ Theorem C29_group_ids_fresh : forall ops, NoDup (ad_tags (tagsz GGlobal ops root
 Proof. intros ops. apply ad_tags_fresh. discriminate. Qed.
 Print Assumptions C29_group_ids_fresh.
 
+(* the same at the level of the node tables: in every reachable chain no two choice nodes - of any
+   layers - carry the same (group id, choice index), so no two AD statements (each has exactly one
+   choice 0) share a group id.  (False under the old local rule: Findings.v.) *)
+Theorem C29_choice_ids_fresh : forall ops,
+  NoDup (choice_groups (run GGlobal ops root0)) /\ NoDup (ad_groups (run GGlobal ops root0)).
+Proof. exact choice_ids_fresh. Qed.
+Print Assumptions C29_choice_ids_fresh.
+
 (* abs with the group ids kept *)
 Theorem C29_history_abs_g : forall gm ops fuel s, is_user s ->
   abs_g fuel (run gm ops root0) s = combine (specFs fuel (stmts_of ops) s) (specGs (tagsz gm ops root0) s).
@@ -139,6 +159,19 @@ Theorem C29_extend_union_groups : forall P cs,
         = combine (specFs fuel (P ++ cs) s) (specGs tz2 s).
 Proof. exact extend_union_groups. Qed.
 Print Assumptions C29_extend_union_groups.
+
+(* ... equivalently: the definition lists WITH group ids of the extension are those of the union
+   program under a renaming rho of group ids that is injective on the ids the union's AD statements
+   carry (C29_history_groups / C29_group_ids_fresh say these are pairwise distinct) *)
+Theorem C29_extend_union_abs_g : forall P cs,
+  exists rho : nat -> nat,
+    (forall fuel s, is_user s ->
+       abs_g fuel (adds GGlobal cs (extend (adds GGlobal P root0))) s
+       = map (ren_clause rho) (abs_g fuel (adds GGlobal (P ++ cs) root0) s)) /\
+    (forall x y, In x (ad_tags (tagsz GGlobal (map OAdd (P ++ cs)) root0)) ->
+                 In y (ad_tags (tagsz GGlobal (map OAdd (P ++ cs)) root0)) -> rho x = rho y -> x = y).
+Proof. exact extend_union_groups_renaming. Qed.
+Print Assumptions C29_extend_union_abs_g.
 
 (* ---------------------------------------------------------------- non-vacuity *)
 Definition p_ : N := 5.  Definition q_ : N := 6.  Definition r_ : N := 7.  Definition a_ : term := [2; 20; 0]%N.
@@ -202,3 +235,13 @@ Proof.
   - repeat constructor; simpl; intuition discriminate.
   - intros H. inversion H as [|x l Hn H1]; subst. inversion H1 as [|y l' Hn' _]; subst. apply Hn'. left. reflexivity.
 Qed.
+
+(* abs_g: same clauses, same partition, numerically different group ids (the extension copies the define
+   node of p/1 and q/1, which shifts node numbers) *)
+Example C29_ex_abs_g_child_vs_union :
+  exists g g', g <> g' /\
+    map snd (abs_g 9 (adds GGlobal exCs (extend (adds GGlobal exP root0))) (FU q_, 1)) = [None; Some (g, g, g)] /\
+    map snd (abs_g 9 (adds GGlobal (exP ++ exCs) root0) (FU q_, 1)) = [None; Some (g', g', g')] /\
+    map fst (abs_g 9 (adds GGlobal exCs (extend (adds GGlobal exP root0))) (FU q_, 1))
+    = map fst (abs_g 9 (adds GGlobal (exP ++ exCs) root0) (FU q_, 1)).
+Proof. vm_compute. do 2 eexists. repeat split; try reflexivity. discriminate. Qed.
